@@ -883,6 +883,13 @@ func ComparisonExpr(query *Query, current Map, expr *sqlparser.ComparisonExpr, o
 				return false, INVALID_TYPE.Extend(fmt.Sprintf("failed to build `IN` expression. expected an array but found %T", right))
 			}
 			for _, value := range rightArray {
+				// a row of a subquery stands for the value of its only column, as in the IN arm
+				if row, ok := value.(Map); ok {
+					for _, column := range row {
+						value = column
+						break
+					}
+				}
 				if v, ok := value.(*float64); ok {
 					value = *v
 				}
